@@ -139,7 +139,11 @@ func (m *model) expandWord(w []WP, dq bool) []field {
 		case "arith":
 			// $((z=1))
 			m.store["z"] = "1"
-			cur = append(cur, refsplit.Seg{Text: "1", Quoted: true})
+			cur = append(cur, refsplit.Seg{Text: "1", Quoted: dq})
+		case "dqat":
+			// "$@" inside the word: where a single field is wanted the positional
+			// parameters are joined with the first character of IFS, all of it quoted
+			cur = append(cur, refsplit.Seg{Text: strings.Join(m.c.Args, m.ifsFirst()), Quoted: true})
 		}
 	}
 	return []field{cur}
@@ -392,6 +396,8 @@ func (c *Case) Source() string {
 				b.WriteString("${y:=Y}")
 			case "arith":
 				b.WriteString("$((z=1))")
+			case "dqat":
+				b.WriteString(`"$@"`)
 			}
 		}
 		b.WriteByte('}')
